@@ -266,13 +266,38 @@ def build():
     b = impl_after(dn, r"impl<O,\s*OO,\s*N,\s*NN>\s*CanonicalOrd<Nsec<OO,\s*NN>>\s*for\s+Nsec<O,\s*N>\s*where[^{]*\{", "Nsec::canonical_cmp")
     cb = fn_body(b, "canonical_cmp")
     one(r"match\s+self\.next_name\.composed_cmp\(\s*&other\.next_name\s*\)", cb, "Nsec::canonical_cmp next_name")
-    m = one(r"self\.types\.cmp\(\s*&(self|other)\.types\s*\)\s*$", cb, "Nsec::canonical_cmp types")
+    m = one(r"self\.types\.(?:cmp|canonical_cmp)\(\s*&(self|other)\.types\s*\)\s*$", cb, "Nsec::canonical_cmp types")
     defs.append(("nsec_canonical_types_vs_other", "bool", bool_(m.group(1) == "other")))
     b = impl_after(dn, r"impl<O,\s*N>\s*Ord\s+for\s+Nsec<O,\s*N>\s*where[^{]*\{", "Ord for Nsec")
     cb = fn_body(b, "cmp")
     one(r"match\s+self\.next_name\.name_cmp\(\s*&other\.next_name\s*\)", cb, "Nsec::cmp next_name")
     m = one(r"self\.types\.cmp\(\s*&(self|other)\.types\s*\)\s*$", cb, "Nsec::cmp types")
     defs.append(("nsec_cmp_types_vs_other", "bool", bool_(m.group(1) == "other")))
+    # SVCB / HTTPS: priority, target (which comparison?), params
+    sv = strip_comments(read("src/rdata/svcb/rdata.rs"))
+    b = impl_after(sv, r"impl<Variant,\s*OtherVariant,\s*Octs,\s*OtherOcts,\s*Name,\s*OtherName>\s*CanonicalOrd<SvcbRdata<OtherVariant,\s*OtherOcts,\s*OtherName>>\s*for\s+SvcbRdata<Variant,\s*Octs,\s*Name>\s*where[^{]*\{", "SvcbRdata::canonical_cmp")
+    cb = fn_body(b, "canonical_cmp")
+    one(r"match\s+self\.priority\.cmp\(\s*&other\.priority\s*\)", cb, "Svcb::canonical_cmp priority")
+    m = one(r"match\s+self\.target\.(name_cmp|composed_cmp|lowercase_composed_cmp)\(\s*&other\.target\s*\)", cb, "Svcb::canonical_cmp target")
+    if m.group(1) == "lowercase_composed_cmp":
+        raise GenError("Svcb::canonical_cmp lower-cases the target")
+    defs.append(("svcb_canonical_target_composed", "bool", bool_(m.group(1) == "composed_cmp")))
+    one(r"self\.params\.canonical_cmp\(\s*&other\.params\s*\)\s*$", cb, "Svcb::canonical_cmp params")
+    cr = fn_body(sv, "compose_canonical_rdata", after="ComposeRecordData")
+    one(r"^\s*self\.compose_rdata\(target\)\s*$", cr, "Svcb canonical form is the plain form")
+    # UnknownRecordData: does == look at the type?  ZoneRecordData hashes it.
+    ur = strip_comments(read("src/base/rdata.rs"))
+    b = impl_after(ur, r"impl<Octs,\s*Other>\s*PartialEq<UnknownRecordData<Other>>\s*for\s+UnknownRecordData<Octs>\s*where[^{]*\{", "PartialEq for UnknownRecordData")
+    eb = fn_body(b, "eq")
+    one(r"self\.data\.as_ref\(\)\.eq\(\s*other\.data\.as_ref\(\)\s*\)", eb, "UnknownRecordData::eq data")
+    defs.append(("unknown_eq_compares_rtype", "bool", bool_(re.search(r"self\.rtype\s*==\s*other\.rtype", eb) is not None)))
+    b = impl_after(ur, r"impl<Octs,\s*Other>\s*CanonicalOrd<UnknownRecordData<Other>>\s*for\s+UnknownRecordData<Octs>\s*where[^{]*\{", "CanonicalOrd for UnknownRecordData")
+    cb = fn_body(b, "canonical_cmp")
+    one(r"self\.data\.as_ref\(\)\.cmp\(\s*other\.data\.as_ref\(\)\s*\)\s*$", cb, "UnknownRecordData::canonical_cmp data")
+    defs.append(("unknown_canonical_compares_rtype", "bool", bool_(re.search(r"self\.rtype\.cmp\(\s*&other\.rtype\s*\)", cb) is not None)))
+    mc = strip_comments(read("src/rdata/macros.rs"))
+    one(r"ZoneRecordData::Unknown\(ref inner\)\s*=>\s*\{\s*inner\.rtype\(\)\.hash\(state\);\s*inner\.data\(\)\.as_ref\(\)\.hash\(state\);\s*\}", mc, "ZoneRecordData::hash Unknown arm")
+    defs.append(("zone_unknown_hash_feeds_rtype", "bool", "true"))
     tx = strip_comments(read("src/rdata/rfc1035/txt.rs"))
     b = impl_after(tx, r"impl<Octs,\s*Other>\s*CanonicalOrd<Txt<Other>>\s*for\s+Txt<Octs>\s*where[^{]*\{", "Txt::canonical_cmp")
     one(r"self\.0\.as_ref\(\)\.cmp\(\s*other\.0\.as_ref\(\)\s*\)", b, "Txt::canonical_cmp is wire octets order")
